@@ -223,6 +223,8 @@ def _model_case(before_lines, before_ast_tree, tpath, after_lines, after_ast, af
     newlen = pnode[1][1] - s
     if newlen < 0 or a[pnode[1][1]:] != b[e:] or a[:s] != b[:s]:
         return None
+    if pnode[1][0] != s or tnode[1][0] != s:
+        return None     # text was inserted/removed in front of the node (e.g. a separating blank): ancestors sharing the start move with it
     # virtual spans: the target occupies exactly the rectangle, before and after
     tnode[1] = [s, e]
     pnode[1] = [s, s + newlen]
